@@ -704,15 +704,30 @@ class Assembler:
                 # dual-mode by default and may not call exec functions)
                 eq = next(q for q in range(it.kw, it.end) if v.is_p(q, "="))
                 inserts.append(Ins(it.kw, "exec", "exec-const"))
-                edits.append(Edit(eq, eq + 1, "/*@L constspec*/ ensures " + self.unit.derives["const:" + path] + " /*@E*/ {", "R14", "const initialiser becomes the body of an exec const"))
-                edits.append(Edit(it.end - 1, it.end, "}", "R14", "const initialiser becomes the body of an exec const"))
+                cs_text = self.unit.derives["const:" + path]
+                cs_lab = VS.LABEL_RE.match(cs_text)
+                cs_labels = cs_lab.group(1).split() if cs_lab else []
+                if cs_lab:
+                    cs_text = cs_text[cs_lab.end():]
+                cs_mark = ("/*@C " + ",".join(cs_labels) + "*/ ") if cs_labels else "/*@C -*/ "
+                cproof = self.unit.derives.get("constproof:" + path)
+                edits.append(Edit(eq, eq + 1, "/*@L constspec*/ ensures\n " + cs_mark + cs_text + "\n /*@E*/ {" + (" let c__v =" if cproof else ""), "R14", "const initialiser becomes the body of an exec const"))
+                const_reg = (it.name, path, sorted({l.split(".")[0] for l in cs_labels}))
+                edits.append(Edit(it.end - 1, it.end, ("; /*@L constproof*/ proof { " + cproof + " } /*@E*/ c__v }") if cproof else "}", "R14", "const initialiser becomes the body of an exec const"))
             if path in self.unit.derives and it.kind in ("struct", "enum"):
                 inserts.append(Ins(it.head, f"#[derive({self.unit.derives[path]})]", "derive"))
             if "external_body" in flags:
                 inserts.append(Ins(it.head, "#[verifier::external_body]", "external_body"))
                 self.assumptions.append(f"external_body on item {path}")
             edits.append(Edit(it.head, it.head, "", "NOP", "")) if False else None
+            first = self.cur_line()
             self.emit("\n" + self.pubify(self.render(fi, it.start, it.end, edits, inserts)) + "\n")
+            last = self.cur_line()
+            if it.kind == "const" and ("const:" + path) in self.unit.derives:
+                # an exec const with a specification is an obligation holder like a function
+                self.funcs.setdefault(const_reg[0], []).append({"path": const_reg[1], "mode": "home", "first": first, "last": last,
+                                                                 "props": const_reg[2], "src_line": v.t[it.kw].line,
+                                                                 "file": fi.v.path.replace(REPO + "/", ""), "bodyless": False, "const": True})
 
     @staticmethod
     def pubify(text):
@@ -986,7 +1001,9 @@ class Assembler:
     const fn contains(&self, o: {name}) -> (r: bool) ensures r == self.has(o) {{ self.bits & o.bits == o.bits }}
     const fn empty() -> (r: {name}) ensures r.bits == 0 {{ {name} {{ bits: 0 }} }}
     const fn bits(&self) -> (r: {ty}) ensures r == self.bits {{ self.bits }}
-    const fn union(self, o: {name}) -> (r: {name}) ensures r.bits == self.bits | o.bits {{ {name} {{ bits: self.bits | o.bits }} }}
+    spec fn spec_union(self, o: {name}) -> {name} {{ {name} {{ bits: self.bits | o.bits }} }}
+    #[verifier::when_used_as_spec(spec_union)]
+    const fn union(self, o: {name}) -> (r: {name}) ensures r == self.spec_union(o), r.bits == self.bits | o.bits {{ {name} {{ bits: self.bits | o.bits }} }}
     const fn intersects(&self, o: {name}) -> (r: bool) ensures r == (self.bits & o.bits != 0) {{ self.bits & o.bits != 0 }}
     fn remove(&mut self, o: {name}) ensures final(self).bits == old(self).bits & !o.bits {{ self.bits = self.bits & !o.bits; }}
     fn insert(&mut self, o: {name}) ensures final(self).bits == old(self).bits | o.bits {{ self.bits = self.bits | o.bits; }}
